@@ -2,6 +2,22 @@ package main
 
 // Checks is the registry: which harness entry points decide which property, under which bounds.
 var Checks = []Check{
+	{ID: "C04", Entries: []Entry{
+		{Pkg: "node", Func: "VerifC04History", Shards: 4, Params: map[string]int64{"ops": 3, "mix": 0}, Thorough: map[string]int64{"ops": 4, "mix": 1},
+			What: "symbolic history of link/unlink/monitor/demonitor by two consumers on a target addressed by pid/name/alias/event (real process API, Route*, default target manager), then the target goes away (unregisterProcess, UnregisterName, DeleteAlias, UnregisterEvent): exactly one exit/down per relation held"},
+	}},
+	{ID: "C19", Entries: []Entry{
+		{Pkg: "act", Func: "VerifC19Forward", Params: map[string]int64{"pool": 2, "messages": 2}, Thorough: map[string]int64{"pool": 3, "messages": 3},
+			What: "real Pool.ProcessRun/forward on a fake process with symbolic per-attempt outcomes (delivered/unknown/terminated/full)"},
+	}},
+	{ID: "C03", Entries: []Entry{
+		{Pkg: "act", Func: "VerifC03ActorOrder", Params: map[string]int64{"messages": 3}, Thorough: map[string]int64{"messages": 4},
+			What: "real Actor.ProcessRun dequeue loop over the four real queues under a symbolic class assignment vs stable sort by class"},
+	}},
+	{ID: "C05", Entries: []Entry{
+		{Pkg: "act", Func: "VerifC05ActorExit", What: "exit signal of each kind x trap x from-parent through the real Actor.ProcessRun: terminate with the signal's reason or handle as ordinary message"},
+		{Pkg: "act", Func: "VerifC05ActorReason", Params: map[string]int64{"messages": 3}, What: "handler error becomes the termination reason; nothing handled afterwards or once not running"},
+	}},
 	{ID: "C08", Entries: []Entry{
 		{Pkg: "act", Func: "VerifC08History", Shards: 18, Params: map[string]int64{"children": 2, "events": 3}, Thorough: map[string]int64{"children": 3, "events": 4},
 			What: "real act.Supervisor (ProcessInit/ProcessRun/handleAction, supOFO/supARFO) on a fake gen.Process; symbolic history of child exits incl. a death during the stopping phase; restart scope, order, view consistency"},
@@ -15,6 +31,10 @@ var Checks = []Check{
 			What: "restart intensity through the real supervisor (one/all/rest-for-one, Intensity 1, Period 5 s, symbolic clock): restart within the limit, stop everything and end with ErrSupervisorRestartsExceeded beyond it"},
 	}},
 	{ID: "C06", Entries: []Entry{
+		{Pkg: "node", Func: "VerifC06Release", Params: map[string]int64{"ops": 3}, Thorough: map[string]int64{"ops": 5},
+			What: "symbolic history of RegisterName/UnregisterName/CreateAlias/DeleteAlias/RegisterEvent/UnregisterEvent/LinkPID/MonitorProcessID by one process, then real unregisterProcess: nothing resolves to it, identities reusable, no relation left (target or requester)"},
+		{Pkg: "node", Func: "VerifC06Unique", Params: map[string]int64{"ops": 3}, Thorough: map[string]int64{"ops": 5},
+			What: "two processes claim/release one name and one event name in a symbolic order: exactly one holder, table resolves to it"},
 		{Pkg: "node", Func: "VerifC06MakeRef", What: "real (*node).MakeRef at counter c0 and c0+d: references differ for every c0 < 2^62, 1 <= d < 2^62"},
 	}},
 }
